@@ -7,11 +7,12 @@ import common
 def main():
     chk = common.Check('C07')
     import C07_common as C
-    proved = chk.prove('I18n.Props.C07', generated=('intexpr', 'grammar'))
+    proved = chk.prove('I18n.Props.C07', generated=('intexpr', 'grammar', 'pluralforms'))
     driver_ok = os.path.exists(common.driver_path()) and not any('untranslatable' in s for s in chk.lean.translation.values())
     count = 12000 if chk.thorough else 2500
     metas = []
     if driver_ok:
+        C.stream_header_search(chk, 12000 if chk.thorough else 3000)
         dis, metas = C.stream_check_plurals(chk, count)
     else:
         chk.broken.append({'kind': 'correspondence', 'stream': 'check-plurals', 'problem': 'driver could not be rebuilt'})
@@ -54,12 +55,19 @@ def main():
              'duplicates) x catalog shapes (0/1/2 distinct msgstr[] counts, untranslated, obsolete, fuzzy) x languages of the registry or none x template flag; '
              'non-trivial = distinct header value list',
         trusted=['Lean 4.33 kernel', 'axioms: propext, Classical.choice, Quot.sound only',
+                 'Spec.PluralFormsRe: list-of-successes semantics of the regex fragment (literal, set, greedy single-character repeat, x?, group) as the meaning of re.search',
+                 'pluralforms2lean translator (re._parser tree, registry as loaded by lib.ling, codomain_limit / format_range max from the AST of check_plurals)',
                  'py2lean translator for the three expression analyses; hand-written model of check_plurals / parse_plural_forms tied by the check-plurals stream',
                  'tags._escape of the registry strings and message_repr are inputs of the model (C02\'s concern)'],
-        explanation='Proved for all inputs (model): gap_claim_true (every "f(x) != range" diagnostic is true for all m < 2^32: corollary of codomain_sound and period_sound), '
-                    'window_tag_iff + window_tag_least (an arithmetic/codomain window diagnostic iff some i < 200 fails or is >= nplurals; it names the least i and its true outcome), '
-                    'window_nocrash. OUTSTANDING as theorems (covered by correspondence + the clause-by-clause falsifier): syntax_tag_iff against a regex-language spec, '
-                    'nplurals_tag_iff, clean_decl_silent, registry_never_unusual, checkPlurals_nocrash for the whole method.')
+        explanation='Proved for all inputs (model), Props/C07.lean: header_regex_pin + scanner_is_search + reader_is_reference (the hand-written header scanner '
+                    'computes pattern.search of the LIVE pattern\'s re._parser tree under a reference backtracking semantics: leftmost start, greedy, groups; decl_is_text / no_decl_is_text: the same reading in plain text), '
+                    'syntax_tag_iff, junk_tag_iff (syntax-error iff no leftmost declaration whose expression parses; junk tags iff text before/after, quoting it), '
+                    'window_report (= window_tag_iff + window_tag_least + gap_claim_true on the whole method: one diagnostic iff some i < 200 fails or is >= nplurals, for the '
+                    'LEAST i with its true outcome; every "f(x) != range" claim is about a non-empty range no member of which is produced by any m < 2^32), format_range_sound, '
+                    'nplurals_tag_iff (+ scan_spec), clean_decl_silent, clean_decl_no_own_diagnostic, registry_never_unusual, registry_string_never_unusual, unusual_tag_iff (both directions), '
+                    'shipped_registry_clean (kernel evaluation over the dump of data/languages: every declaration parses strictly, is total/in range/onto on the window, '
+                    'no language has two declarations with one nplurals), registry_declaration_silent, checkPlurals_nocrash (whole method, any input, shipped registry). '
+                    'Outstanding: "valid expression" is the model\'s parser (C04 ties it to the grammar); the hint extra and tags._escape are inputs of the model.')
 
 if __name__ == '__main__':
     common.main_wrapper(main)
